@@ -477,7 +477,10 @@ func (q dec) divBasic(u, v dec) {
 			// If n == qhl, the carry from subVV and the carry from addVV
 			// cancel out and don't affect u[j+n].
 			if n < qhl {
-				u[j+n] += c
+				// the carry must wrap at the decimal base, as the borrow did
+				if u[j+n] += c; u[j+n] == _DB {
+					u[j+n] = 0
+				}
 			}
 			qhat--
 		}
